@@ -10,7 +10,8 @@ MODULE = 'Props.C13'
 THEOREMS = ['C13_sum_of_threads', 'C13_interleave_invariant', 'C13_unenabled_thread_silent', 'C13_hits_exact',
             'C13_reported_interleave_invariant', 'C13_nonvacuous']
 LEVEL = 'proof'
-FEATURES_T = [{'gen'}, set(), {'rec'}, {'gen', 'rec'}, {'monitor'}, {'monitor', 'gen'}]
+FEATURES_T = [{'gen'}, set(), {'rec'}, {'gen', 'rec'}]
+FEATURES_M = [{'monitor'}, {'baton'}, {'baton', 'gen'}, {'baton', 'rec'}, {'monitor', 'gen'}, {'baton', 'monitor'}]
 FEATURES_I = [{'gen'}, {'gen', 'co'}, {'co'}, {'gen', 'rec'}, {'gen', 'straddle'}, {'gen', 'straddle', 'rec'}]
 
 
@@ -26,6 +27,8 @@ def run(tier, seed):
     c1['events'] += c2['events']
     c1['samples'] += c2['samples'][:1]
     c1['interleaved_tasks_part'] = dict(evaluations=c2['evaluations'], hypothesis_holds_on=c2['hypothesis_holds_on'])
+    res3 = e1common.run_property(PROP, MODULE, THEOREMS, tier, seed + 2, 60, 4000, FEATURES_M, 'hits', threads=True, ticks=(0,))
+    e1common.merge_results(res, res3, 'monitor_part')
     res.assumptions.append('memory safety of the C++ maps under the GIL is observed (no crash), not proved (partial)')
     return res
 
